@@ -468,7 +468,11 @@ func (t *taskState) marshalTargetOp(i int, po *prepOp) {
 	if err != nil || (b == nil && exp == nil) {
 		return
 	}
-	if len(b) < pre || !world.SameEncoding(tgt.Type().Elem(), b[pre:], exp) {
+	if len(b) < pre || string(b[:pre]) != string(buf[:pre]) {
+		t.probe("other_property:marshal_result_is_not_prefix_plus_encoding") // C06 / C11, not a stale-state leak
+		return
+	}
+	if !world.SameEncoding(tgt.Type().Elem(), b[pre:], exp) {
 		t.fail(i, po, "leak", fmt.Sprintf("Marshal of the value in a re-used variable gives %s, a brand-new instance gives %s for the same value", hexShort(b[min(pre, len(b)):]), hexShort(exp)))
 	}
 }
